@@ -14,6 +14,11 @@ CLAIMED = {
   level_note="Trusted: the dict model; value domain = printable strings without an embedded line break followed by ';' (inexpressible in CIF 1.1); identifier-like names; present cells are never '.' or '?'. Storage faults are not injected (the code has no reaction to them, see DESIGN 7).",
   technique="deterministic simulation (seeded histories with restart-from-durable-state, rejected-operation faults, reference model, ddmin replay)",
   design_ref="4.4, Appendix B"),
+ "C12": dict(
+  level_text="Seeded edit/restart histories on FastaFile, FastqFile, GenBankFile and GFFFile objects (text = durable state, incrementally maintained index = volatile state): mapping/list edits, rejected operations, typed puts/gets through the converters, streaming read_iter/write_iter and restarts through simulated media; after every step the live view must equal a re-parse of the object's own text (I1) and the model (I2), and typed values must read back unchanged after a restart (I3). Knobs (chars_per_line, FASTQ offset) are randomised per run. Sampling, not proof.",
+  level_note="Trusted: the per-format models; value domains restricted to what each format can express (see evidence assumptions). Storage faults are not injected (no reacting code, DESIGN 7).",
+  technique="deterministic simulation (seeded edit histories with restart-from-durable-text, rejected-operation faults, text/index consistency invariant, reference model, ddmin replay)",
+  design_ref="4.5"),
 }
 
 NA = {
